@@ -380,7 +380,13 @@ func c19RunReqMsg(m c19ReqMsg) (outcome string, fail *explore.Fail) {
 	}
 	hdr, err := parseHeaders(qpack.NewDecoder().Decode(block), true, c19WriterLimit, nil)
 	explore.Must(err == nil, "parseHeaders rejects what requestFromHeaders accepted: %v", err)
-	// (parseHeaders neither joins cookies nor moves the Trailer field)
+	// (parseHeaders neither joins cookies nor moves the Trailer field; the announced trailer
+	// names are a set, the writer lists them in map order)
+	if tv := hdr.Headers["Trailer"]; len(tv) == 1 {
+		names := strings.Split(tv[0], ", ")
+		sort.Strings(names)
+		hdr.Headers["Trailer"] = []string{strings.Join(names, ", ")}
+	}
 	if g, w := c19RenderParsed(hdr), c19ModelParsed(c19ViewOf(want)); g != w {
 		return "", explore.Failf("writer-request/pseudo-or-fields-differ:"+c19DiffTag(g, w),
 			"parseHeaders(write(request)) differs from the message\n   got  %s\n   want %s", c19Trunc(g), c19Trunc(w))
